@@ -405,7 +405,12 @@ func (env *specEnv) evalSel(x *ESel) SVal {
 			// keep the address so that nested selections resolve
 			return SVal{T: env.f.load(env.heap, a), GoT: t, A: nil}
 		}
-		return SVal{T: env.f.load(env.heap, a), GoT: t}
+		lv := env.f.load(env.heap, a)
+		if !strings.Contains(lv.S, "|q ") && !strings.Contains(lv.S, "|sp ") {
+			// the value of a typed location satisfies the invariant of its type (0 <= len <= cap, ...)
+			env.c.assume(env.c.typeInv(lv, t, env.c.nalloc(env.heap), 0))
+		}
+		return SVal{T: lv, GoT: t}
 	}
 	if st, ok := structOf(v.GoT); ok {
 		i, path := findFieldPath(st, x.Name)
